@@ -1,19 +1,35 @@
 /- GENERATED: instance obligations for one logic, discharged by kernel evaluation.
-   `X ⊆ known`: every failing row is a committed known finding (Ptx/Gen/Known.lean). -/
+   `S` = the logic with its DOCUMENTED tables (Ptx/Sem/Spec.lean); rules, closure, trunk and frames
+   are what the translator read off the code.  `X ⊆ known`: every failing row is a committed
+   known finding (Ptx/Gen/Known.lean, generated from known_findings.json). -/
 import Ptx.Gen.L_S5RM3
 import Ptx.Gen.Known
 import Ptx.Sem.Subset
+import Ptx.Props.C01
+import Ptx.Gen.L_RM3
 namespace Ptx.Gen.Obl.S5RM3
 open Ptx
 
-theorem tables_total : Gen.S5RM3.tablesTotalB = true := by decide +kernel
-theorem rules_exact : subsetB Gen.S5RM3.badRules (Known.badRules "S5RM3") = true := by decide +kernel
-theorem rules_sound : subsetB Gen.S5RM3.unsoundRules (Known.unsoundRules "S5RM3") = true := by decide +kernel
-theorem rules_total : subsetB Gen.S5RM3.missingRules (Known.missingRules "S5RM3") = true := by decide +kernel
-theorem rules_local : Gen.S5RM3.nonLocalRules = [] := by decide +kernel
-theorem closure_total : Gen.S5RM3.closureTotalB = true := by decide +kernel
-theorem closure_exact : subsetB Gen.S5RM3.badClosure (Known.badClosure "S5RM3") = true := by decide +kernel
-theorem read_total : Gen.S5RM3.readTotalB = true := by decide +kernel
-theorem read_exact : subsetB Gen.S5RM3.badRead (Known.badRead "S5RM3") = true := by decide +kernel
+/-- a modal / first-order extension has exactly the truth-functional tables of its base (RM3) -/
+theorem base_tables : Gen.S5RM3.tables.sameTF Gen.RM3.tables = true := by decide +kernel
+theorem spec_defined : Gen.S5RM3.specDefinedB = true := by decide +kernel
+theorem tables_spec : subsetB Gen.S5RM3.tableDiff (Known.tableDiff "S5RM3") = true := by decide +kernel
+theorem defined_ops : Gen.S5RM3.tables.definedOpsBad = [] := by decide +kernel
+theorem tables_total : Gen.S5RM3.sem.tablesTotalB = true := by decide +kernel
+theorem rules_exact : subsetB Gen.S5RM3.sem.badRules (Known.badRules "S5RM3") = true := by decide +kernel
+theorem rules_sound : subsetB Gen.S5RM3.sem.unsoundRules (Known.unsoundRules "S5RM3") = true := by decide +kernel
+theorem rules_total : subsetB Gen.S5RM3.sem.missingRules (Known.missingRules "S5RM3") = true := by decide +kernel
+theorem rules_local : Gen.S5RM3.sem.nonLocalRules = [] := by decide +kernel
+theorem closure_total : Gen.S5RM3.sem.closureTotalB = true := by decide +kernel
+theorem closure_exact : subsetB Gen.S5RM3.sem.badClosure (Known.badClosure "S5RM3") = true := by decide +kernel
+theorem read_total : Gen.S5RM3.sem.readTotalB = true := by decide +kernel
+theorem read_exact : subsetB Gen.S5RM3.sem.badRead (Known.badRead "S5RM3") = true := by decide +kernel
+theorem sound_core : Gen.S5RM3.sem.soundCoreB = true := by decide +kernel
+
+/-- C01 for this logic: a closed tableau reached by any legal derivation has no countermodel. -/
+theorem c01_valid_sound (arg : Argument) (t : Tableau)
+    (hd : Deriv Gen.S5RM3.sem.soundPart.noQuantPart (trunk Gen.S5RM3.sem arg) t) (hclosed : t.allClosed = true)
+    (M : Struct) (hM : M.Interp Gen.S5RM3.sem) (e : Env M.D) (w0 : M.W) : ¬ Countermodel Gen.S5RM3.sem M e w0 arg :=
+  Props.C01.C01_valid_sound_partial Gen.S5RM3.sem sound_core arg t hd hclosed M hM e w0
 
 end Ptx.Gen.Obl.S5RM3
